@@ -1,4 +1,5 @@
 """C05 — substitution only narrows a schema, never widens it."""
+from ..common import safe_repr
 from .. import gen_value, runner, scripted_random as SR, substcorr, valcases
 from ..common import d42  # noqa: F401
 from d42 import substitute, validate
@@ -19,7 +20,7 @@ EVIDENCE = dict(
 def oracle(ctx, cases):
     for c in cases:
         plain = not gen_value.has_placeholder(c.value)     # C05: "a plain value (no ... placeholders)"
-        ctx.case((repr(c.schema), repr(c.value)), c.kind == "ok" and plain)
+        ctx.case((safe_repr(c.schema), safe_repr(c.value)), c.kind == "ok" and plain)
         if c.kind != "ok" or not plain:
             continue
         r, v, s = c.result, c.value, c.schema
@@ -54,8 +55,8 @@ def oracle(ctx, cases):
                 ctx.count("probes_accepted_by_result")
             if ok_r and not ok_s:
                 ctx.violation("S % v accepts a value that S rejects (substitution widened the schema)",
-                              schema=repr(s), value=repr(v), result=repr(r), probe=repr(w),
-                              errors=repr(validate(s, w).get_errors()[:3]), py_schema=s, py_value=v, py_probe=w)
+                              schema=safe_repr(s), value=safe_repr(v), result=safe_repr(r), probe=safe_repr(w),
+                              errors=safe_repr(validate(s, w).get_errors()[:3]), py_schema=s, py_value=v, py_probe=w)
                 break
 
 
@@ -76,14 +77,14 @@ def run(ctx):
     dis = substcorr.compare(cases, ctx)
     for c, detail in dis[:10]:
         ctx.breakage("correspondence", "substitution outcome differs between model and code",
-                     schema=repr(c.schema), value=repr(c.value), detail=detail, request=c.req)
+                     schema=safe_repr(c.schema), value=safe_repr(c.value), detail=detail, request=c.req)
     ctx.cov["corr_disagreements"] = len(dis)
     if not ctx.quick():
         # thorough: the whole small scope of substitutions with the narrowing oracle on every successful one
         from .. import smallscope
         smallscope.subst_scope(ctx, oracle=oracle, stride=3)
     for c in [c for c in cases if c.kind == "ok"][:200:40]:
-        ctx.sample({"schema": repr(c.schema), "value": repr(c.value), "result": repr(c.result)[:300]})
+        ctx.sample({"schema": safe_repr(c.schema), "value": safe_repr(c.value), "result": safe_repr(c.result)[:300]})
 
 
 def replay(path):
